@@ -1059,7 +1059,8 @@ func c01StoreStepParams(fn *ssa.Function) (list, opts *ssa.Parameter) {
 				return nil, nil
 			}
 			list = p
-		case ssau.NamedOf(p.Type()) == optType:
+		case ssau.NamedOf(p.Type()) == optType || ssau.NamedOf(p.Type()) == cacheOpts:
+			// the search options, or the cache's copy of them already made by the caller
 			if opts != nil {
 				return nil, nil
 			}
